@@ -235,11 +235,21 @@ def check_rates_fn(R, prog, rc, site, hk, nat=None, lst=None, comps=("0", "1")):
         R.ob("C15.R3", site + ":rates-fn", False, "rate computation %s is not a local function" % fmt(rc)[:80], fn=hk)
         return
     c = Ctx(cb, params={i + 1: a for i, a in enumerate(rc[2])})
-    raw = c.T.return_term()
-    if raw[0] == "call" and shared._body_of_call(prog, raw) is not None and shared._body_of_call(prog, raw).key != cb.key:
-        # the function only loads the state and delegates the formula to another local function
-        return check_rates_fn(R, prog, raw, site, hk, nat, lst, comps)
     from engine.analysis import resolve_terms as _rt
+
+    def settle_value(w_):
+        """the value returned in world w_, with local helpers / conversions / named constants spelled out
+        (`state.rates().into()`, `Rates::ZERO`)"""
+        v = _rt(prog, w_.T.return_term(), 3, None, w_.assumptions)
+        for _ in range(3):
+            if v[0] == "item":
+                ci = prog.const_init(v[1])
+                if ci is None:
+                    break
+                v = _rt(prog, ci, 2)
+            else:
+                break
+        return v
     RR = lambda t: norm(_rt(prog, t, 2))
     # nat / lst may be given as reference TERMS (in-memory state): compare after inlining pure helpers on both sides
     if nat is not None and not callable(nat):
@@ -255,15 +265,14 @@ def check_rates_fn(R, prog, rc, site, hk, nat=None, lst=None, comps=("0", "1")):
     rem, n = bool_world_edges(c, is_lst_zero, False)
     rem_n, _ = bool_world_edges(c, is_nat_zero, False)  # an additional zero-staked guard is allowed
     w = c.with_removed(rem | rem_n).settle()
-    from engine.analysis import resolve_terms
-    rt = resolve_terms(prog, w.T.return_term(), 2)
+    rt = settle_value(w)
     fr = lambda t, a, b: t[0] == "call" and t[1] == "cosmwasm_std::Decimal::from_ratio" and a(t[2][0]) and b(t[2][1])
     cs = _components(rt)
     good = n >= 1 and len(cs) == 2 and (comps[0] is None or (comps[0] in cs and fr(cs[comps[0]], nat, lst))) and comps[1] in cs and fr(cs[comps[1]], lst, nat)
     R.ob("C15.R3", site + ":rates-formula", good, "with LST > 0 (and a non-zero staked total) the rate computation returns %s; expected (from_ratio(staked, lst), from_ratio(lst, staked)) of the post-transaction state" % fmt(rt)[:240], fn=cb.key)
     rem, n2 = bool_world_edges(c, is_lst_zero, True)
     w0 = c.with_removed(rem).settle()
-    rt0 = resolve_terms(prog, w0.T.return_term(), 2)
+    rt0 = settle_value(w0)
     z = lambda t: t[0] == "call" and t[1] == "cosmwasm_std::Decimal::zero"
     cs0 = _components(rt0)
     good0 = n2 >= 1 and len(cs0) == 2 and all(z(v) for v in cs0.values())
